@@ -2,6 +2,7 @@ import UgoVerif.Proofs.JsonEnc
 import UgoVerif.Proofs.JsonScan
 import UgoVerif.Proofs.JsonScanSpec
 import UgoVerif.Proofs.JsonCompact2
+import UgoVerif.Proofs.JsonIndent
 /-
   C17 — the json module produces and accepts exactly standard JSON.
 
@@ -229,6 +230,12 @@ theorem indent_no_panic (pre ind bs : Bytes) : ∃ o, indent pre ind bs = .ok o 
   split <;> exact ⟨_, rfl⟩
 
 example : valid [0x7B, 0x7D] = .ok true ∧ valid [0x7D] = .ok false := by decide
+
+/-- **`indentBuffer` returns bytes exactly for the inputs `Valid` accepts** (any prefix/indent);
+    hence Valid, Compact and Indent accept the same documents: those of `scanner_exact` -/
+theorem indent_accepts_iff_valid (pre ind src : Bytes) :
+    (∃ out, indent pre ind src = .ok (some out)) ↔ valid src = .ok true :=
+  indent_some_iff pre ind src
 
 /-! ### the full statement -/
 
